@@ -126,6 +126,36 @@ instance (d : Doc) : Decidable d.Fresh := by unfold Fresh; infer_instance
 
 end Doc
 
+/-- SPEC: the layout around the target and at the end of the file, and the layer trivia
+    ("wrappers": everything of the document that is not a node) -/
+def Doc.wrappers (d : Doc) :=
+  (d.noTarget, d.tBefore, d.tAfter, d.stBodyBefore, d.stBodyAfter, d.stAfterLet, d.trailing, d.rstripped)
+
+/-- the root nodes a layer holds -/
+def Layer.nodes (l : Layer) : List Node := l.scope ++ l.order
+
+/-- every root node the document holds -/
+def Doc.nodes (d : Doc) : List Node :=
+  d.target :: (d.scope ++ d.stOrder ++ d.stack.flatMap Layer.nodes ++ d.topScope.getD [] ++
+    d.scratch.toList)
+
+/-- frames of all bindings the document holds -/
+def Doc.allFrames (d : Doc) : List Frame := d.nodes.flatMap Node.allFrames
+
+/-- SPEC: one CLI edit -/
+inductive Op where
+  | set (p : Text) (v : ValueArg)
+  | rm (p : Text)
+
+def Op.path : Op → Text | .set p _ => p | .rm p => p
+def Op.apply : Op → EditM Unit
+  | .set p v => setValue p v
+  | .rm p => removeValue p
+/-- the document after a history of edits (a rejected edit leaves whatever state it leaves) -/
+def run : List Op → Doc → Doc
+  | [], d => d
+  | op :: ops, d => run ops (op.apply d).2
+
 /-- `source.trailing` with its final linebreak / empty-line tokens popped (0 = linebreak, 1 = empty line) -/
 def stripLayoutTail (t : Payload) : Payload :=
   (t.reverse.dropWhile (fun t => t == 0 || t == 1)).reverse
